@@ -383,6 +383,7 @@ type sharedInitializeCaller struct{}
 
 func (caller sharedInitializeCaller) Call(s *slip.Scope, args slip.List, depth int) slip.Object {
 	self := s.Get("self").(*Instance)
+	slip.CheckSendArgCount(s, depth, self, ":shared-initialize", args, 1, -1)
 	rest := args[1:]
 	names, ok := args[0].(slip.List)
 	if !ok {
@@ -431,6 +432,7 @@ type updateInstanceForDifferentClassCaller struct{}
 
 func (caller updateInstanceForDifferentClassCaller) Call(s *slip.Scope, args slip.List, depth int) slip.Object {
 	self := s.Get("self").(*Instance)
+	slip.CheckSendArgCount(s, depth, self, ":update-instance-for-different-class", args, 1, -1)
 	// args[0] is previous
 	rest := args[1:]
 	for i := 0; i < len(rest)-1; i += 2 {
